@@ -1,6 +1,6 @@
 (* Top-level dispatcher of the extracted model: first token selects the domain. *)
 From Coq Require Import List NArith Bool String.
-From PyFS Require Import Base.PyStr Base.Render Path.PathRun FS.Ops FS.FsRun.
+From PyFS Require Import Base.PyStr Base.Render Path.PathRun FS.Ops FS.FsRun Run.RunMisc.
 Import ListNotations.
 Local Open Scope string_scope.
 
@@ -9,6 +9,9 @@ Definition dispatch (tokens : list str) : str :=
   | dom :: name :: args =>
     if is_name dom "path" then run_path name args
     else if is_name dom "fs" then run_fs2 name args
+    else if is_name dom "walk" then run_walk name args
+    else if is_name dom "glob" then run_glob name args
+    else if is_name dom "file" then run_file name args
     else lit "?domain"
   | _ => lit "?empty"
   end.
